@@ -136,3 +136,15 @@ M("C07-R2-stddevpop-no-sqrt", "C07", [(F, "            let n = raw_output_buffer
 M("C07-R2-count-sum", "C07", [(F, "Some(Function::Count) => raw_output_buffer.len().to_string(),", "Some(Function::Count) => get_buffer_sum(raw_output_buffer, &buffer_key).to_string(),")], ["primitive_Count"])
 M("C07-R2-variance-abs", "C07", [(F, "result += (avg - value).powi(2) / n as f64;", "result += (avg - value).abs() / n as f64;")], ["variance-formula"])
 M("C07-R3-buffer-before-filter", "C07", [(S, "        self.fms.clear();\n\n        if let Some(ref expr) = self.query.expr {", "        self.fms.clear();\n        if self.has_aggregate_column() {\n            self.raw_output_buffer.push(HashMap::new());\n        }\n\n        if let Some(ref expr) = self.query.expr {")], ["buffer_"])
+
+# ---------------------------------------------------------------- C15
+E = "src/expr.rs"
+M("C15-R1-addsub-operands-paren", "C15", [(P, "                        let expr = self.parse_mul_div()?;\n                        if op.is_none() {", "                        let expr = self.parse_paren()?;\n                        if op.is_none() {")], ["precedence_parse_add_sub"])
+M("C15-R1-modulo-in-addsub", "C15", [(P, "Some(ArithmeticOp::Add) | Some(ArithmeticOp::Subtract) => {", "Some(ArithmeticOp::Add) | Some(ArithmeticOp::Subtract) | Some(ArithmeticOp::Modulo) => {"), (P, "                    Some(ArithmeticOp::Multiply)\n                    | Some(ArithmeticOp::Divide)\n                    | Some(ArithmeticOp::Modulo) => {", "                    Some(ArithmeticOp::Multiply)\n                    | Some(ArithmeticOp::Divide) => {")], ["precedence_"])
+M("C15-R1-right-assoc", "C15", [(P, "Some(Expr::arithmetic_op(left, new_op.unwrap(), expr.unwrap()))\n                            }\n                            None => expr,\n                        };\n                    }\n                    _ => {\n                        self.drop_lexem();\n\n                        return Ok(left);\n                    }\n                }\n            } else {\n                self.drop_lexem();\n\n                return Ok(left);\n            }\n        }\n    }\n\n    fn parse_mul_div", "Some(Expr::arithmetic_op(expr.unwrap(), new_op.unwrap(), left))\n                            }\n                            None => expr,\n                        };\n                    }\n                    _ => {\n                        self.drop_lexem();\n\n                        return Ok(left);\n                    }\n                }\n            } else {\n                self.drop_lexem();\n\n                return Ok(left);\n            }\n        }\n    }\n\n    fn parse_mul_div")], ["associativity_parse_add_sub"])
+M("C15-R2-subtract-swapped", "C15", [(O, "ArithmeticOp::Subtract => left.to_float() - right.to_float(),", "ArithmeticOp::Subtract => right.to_float() - left.to_float(),")], ["calc_Subtract"])
+M("C15-R2-modulo-div", "C15", [(O, "ArithmeticOp::Modulo => left.to_float() % right.to_float(),", "ArithmeticOp::Modulo => left.to_float() / right.to_float(),")], ["calc_Modulo"])
+M("C15-R3-key-drops-args", "C15", [(E, "            if let Some(ref args) = self.args {\n                for arg in args {\n                    fmt.write_str(\", \")?;\n                    fmt.write_str(&arg.to_string())?;\n                }\n            }\n", "")], ["key_args"])
+M("C15-R3-key-drops-op", "C15", [(E, "        if let Some(ref op) = self.arithmetic_op {\n            fmt.write_str(match op {\n                ArithmeticOp::Add => \" + \",\n                ArithmeticOp::Subtract => \" - \",\n                ArithmeticOp::Multiply => \" * \",\n                ArithmeticOp::Divide => \" / \",\n                ArithmeticOp::Modulo => \" % \",\n            })?;\n        }\n", "        fmt.write_str(\" ? \")?;\n")], ["key_arithmetic_op"])
+M("C15-R3-key-no-minus", "C15", [(E, "        if self.minus {\n            fmt.write_char('-')?;\n        }\n", "")], ["key_minus"])
+M("C15-R4-minus-field-ignored", "C15", [(S, "                    .get_field_value(entry.unwrap(), file_info, field)\n                    .with_sign(column_expr.minus);", "                    .get_field_value(entry.unwrap(), file_info, field);")], ["minus_field"])
